@@ -7,7 +7,7 @@ git -C /repo worktree add -q --detach $WT HEAD || exit 2
 run_demo() { (cd $WT && PYTHONPATH=$WT TQDM_DISABLE=1 timeout 600 /venv/bin/python $d/demo.py >/dev/null 2>&1; echo $?); }
 clean=$(run_demo)
 git -C $WT apply $d/patch.diff || { echo "patch does not apply"; git -C /repo worktree remove --force $WT; exit 2; }
-base=$(/tmp/mut/baseline.sh $WT | head -1)
+base=$($(dirname $0)/baseline_wt.sh $WT | head -1)
 mut=$(run_demo)
 echo "$(basename $d): demo_on_pristine=$clean demo_with_patch=$mut $base"
 git -C /repo worktree remove --force $WT
